@@ -212,14 +212,23 @@ class C17(core.Property):
         "CustomResolver / VectorClockMerge with a merge function are outside the convergence claim (arbitrary user code)",
     ]
     hypotheses = [
-        "ML.Coherent: vector-clock dominance implies (timestamp, writer, own counter) order; same writer + same timestamp implies causally ordered",
+        "ML.Coherent (per key, on the versions stamped by the run, ML.created): vector-clock dominance implies (timestamp, writer, own counter) "
+        "order; same writer + same timestamp implies causally ordered — hypothesis of ml_quiescent_convergence; derived from ML.schedOK "
+        "(clock readings never decrease; a leader stamps a write strictly after the timestamps of the versions it has received in Replicate "
+        "messages, i.e. positive network latency) in ml_coherent_of_positive_latency",
         "chain: 2 <= n (build_chain's own precondition)",
     ]
     partial_theorems = {
-        "ml_merge_order_independent": "proved: for coherent versions the merge decision is a total-order maximum, so replicas that merged "
-            "the same set of versions agree (with ml_install_is_merge tying it to the model's _install); gap to "
-            "ml_quiescent_convergence_full: the run-level ghost invariant (replica version = mergeAll of delivered versions, coherence "
-            "from positive latency) is validated by the correspondence runs only",
+        "HappyModel.C17.ml_quiescent_convergence_positive_latency": "full at run level for the modelled system: for every action list "
+            "(any order / duplication of Replicate and anti-entropy messages, any anti-entropy traffic) with a non-decreasing clock and "
+            "positive Replicate latency (ML.schedOK: every client write at a leader is stamped strictly after the timestamps of all versions "
+            "delivered to that leader in Replicate messages before it; 60/60 schedules recorded from the real implementation satisfy it), at quiescence all leaders hold the same version and value of every key, the greatest "
+            "written one (ml_quiescent_holds_max); coherence of the written versions is derived (ml_coherent_of_positive_latency), and "
+            "ml_quiescent_convergence states the same under the bare ML.Coherent hypothesis, which cannot be dropped "
+            "(ml_convergence_needs_coherence: decided 3-leader witness with a clock read backwards). Modelling limit, not a proof gap: the "
+            "model never loses a message, so quiescence alone already means every leader has processed every Replicate and anti-entropy only "
+            "re-delivers versions; convergence *through* anti-entropy after lost Replicates (network partitions) is outside the model and is "
+            "covered by the correspondence runs only as far as the harness generates it",
     }
 
     def __init__(self):
@@ -615,6 +624,12 @@ THEOREMS = [
     "HappyModel.C17.chain_quiescent_convergence",
     "HappyModel.C17.ml_install_is_merge",
     "HappyModel.C17.ml_merge_order_independent",
+    "HappyModel.C17.ml_quiescent_holds_max",
+    "HappyModel.C17.ml_quiescent_convergence",
+    "HappyModel.C17.ml_coherent_of_distinct_stamps",
+    "HappyModel.C17.ml_coherent_of_positive_latency",
+    "HappyModel.C17.ml_quiescent_convergence_positive_latency",
+    "HappyModel.C17.ml_convergence_needs_coherence",
 ]
 C17.theorems = THEOREMS
 PROPERTY = C17()
